@@ -110,13 +110,25 @@ def _merge(dst, src):
 
 
 def classify(v, case, repeat_index):
-    """mechanism key for a bundle violation (deterministic in the witness)."""
-    if repeat_index > 0 and v["clause"].split("/")[0] in ("emo-not-ascending", "gap-definition"):
-        d = v["detail"]
-        if v["clause"].startswith("gap-definition"):
-            return "mo-tracking-permutes-emo" if d.get("tracked_gap_ok") else None
-        return "mo-tracking-permutes-emo" if d.get("is_block_permutation") else None
-    return None
+    """mechanism key for a bundle violation (deterministic in the witness).
+
+    `mo-tracking-permutes-emo`: ONLY for the clauses emo-not-ascending / gap-definition (restricted spin), ONLY on call
+    number >= 2 on the same Molecule object, and ONLY when (i) the reported e_mo restricted to the occupied block and to
+    the virtual block are permutations of the corresponding ascending eigenvalues of the Fock matrix rebuilt from the
+    returned density and (ii) the reported gap equals the true one, eig_F[nocc] - eig_F[nocc-1].  A first-call
+    violation, a wrong gap, or orbital energies that are not the Fock eigenvalues are never matched."""
+    if repeat_index < 1 or v["clause"] not in ("emo-not-ascending", "gap-definition"):
+        return None
+    d = v["detail"]
+    e, w, nocc, gap = d.get("e_mo"), d.get("eig_F"), d.get("nocc"), d.get("gap")
+    if e is None or w is None or nocc is None or gap is None or not (0 < nocc < len(w)) or len(e) != len(w):
+        return None
+    e, w = np.asarray(e, float), np.asarray(w, float)
+    block_perm = bool(np.abs(np.sort(e[:nocc]) - w[:nocc]).max() <= 1e-8 and np.abs(np.sort(e[nocc:]) - w[nocc:]).max() <= 1e-8)
+    gap_ok = bool(abs(float(gap) - (w[nocc] - w[nocc - 1])) <= 1e-8)
+    d["is_block_permutation_of_fock_eigenvalues"] = block_perm
+    d["reported_gap_is_true_gap"] = gap_ok
+    return "mo-tracking-permutes-emo" if (block_perm and gap_ok) else None
 
 
 def run_case(case):
@@ -147,29 +159,15 @@ def run_case(case):
                          if not (rep > 0 and k in ("gap_definition",))})
         for v in b["violations"]:
             if rep > 0:
-                # annotate the witness for the classifier: is the reported e_mo a permutation inside the occupied and
-                # inside the virtual block of the ascending eigenvalues, and is the reported gap the true one?
-                d = v["detail"]
-                r = d.get("row", 0)
-                e = run.npy(mol.e_mo)[r]
-                Zr = [int(z) for z in run.npy(mol.species)[r]]
-                norb = sum(4 if z > 1 else (1 if z == 1 else 0) for z in Zr)
-                nocc = int(np.asarray(run.npy(mol.nocc)).reshape(-1)[r]) if run.npy(mol.nocc).ndim == 1 else None
-                if nocc is not None and e.ndim == 1:
-                    ev = e[:norb]
-                    srt = np.sort(ev)
-                    d["is_block_permutation"] = bool(np.allclose(np.sort(ev[:nocc]), srt[:nocc], atol=1e-9)
-                                                     and np.allclose(np.sort(ev[nocc:]), srt[nocc:], atol=1e-9))
-                    g_rep = float(np.asarray(run.npy(mol.e_gap)).reshape(-1)[r])
-                    d["tracked_gap_ok"] = bool(abs(g_rep - (ev[nocc:].min() - ev[:nocc].max())) <= 1e-9)
-                d["repeat_index"] = rep
-                d["kick"] = case["repeat"]["kick"]
+                v["detail"]["repeat_index"] = rep
+                v["detail"]["kick"] = case["repeat"]["kick"]
             v["mech"] = classify(v, case, rep)
             viol.append(v)
         return b
 
     b0 = judge(mol, es, sett, 0)
     dip0 = run.npy(getattr(mol, "dipole", None))
+    Etot0 = run.npy(mol.Etot).reshape(-1).copy()
     nc0 = np.asarray(run.npy(es.notconverged), bool).reshape(-1) if getattr(es, "notconverged", None) is not None \
         else np.zeros(len(rows), bool)
     # ---- repeated calls on the same object ------------------------------------------------
@@ -203,8 +201,14 @@ def run_case(case):
         factor = obs14.unit_factor()
         alpha = case["conv"][1] if case["conv"][0] == 0 else 0.0
         A = 1.0 / (1.0 - alpha)
+        E0, E1 = Etot0, run.npy(mol2.Etot).reshape(-1)
         for r in range(len(rows)):
             if nc0[r] or nc1[r]:
+                continue
+            if abs(E1[r] - E0[r]) > 1e-7:
+                # the translated run converged to a different SCF solution (e.g. symmetry-broken Si2): the two dipoles
+                # belong to different densities; whether energies are translation invariant is C02's subject
+                mon["translation_pairs_other_scf_solution"] = mon.get("translation_pairs_other_scf_solution", 0) + 1
                 continue
             Z, X, q, m = rows[r]
             n = len(Z)
